@@ -183,6 +183,9 @@ func ruleMixedFieldsRejected(c *chk.Ctx) {
 			}
 		})
 	}
+	for g := range failRecorders(c) {
+		failers[g] = true
+	}
 	atomOf := func(cd ir.Cond) (name string, val bool, ok bool) {
 		if x, y, op, isRel := ir.Rel(cd); isRel && (op == token.EQL || op == token.NEQ) {
 			if k, isK := constString(y); isK && k == "" && chk.LoadsField(ir.NormCell(x), c.M.JM) {
@@ -512,6 +515,26 @@ func storedWays(c *chk.Ctx, st *ssa.Store, root *ssa.Function) []valueWay {
 	return out
 }
 
+// returnedWays lists the ways result i of return r comes about: the value under
+// the outcomes known at the return, or — a result variable assigned on
+// earlier branches and returned by a shared exit — each assigned value with
+// the outcomes of its edge.
+func returnedWays(r *ssa.Return, i int) []valueWay {
+	var out []valueWay
+	var expand func(v ssa.Value, conds []ir.Cond, depth int)
+	expand = func(v ssa.Value, conds []ir.Cond, depth int) {
+		if phi, ok := v.(*ssa.Phi); ok && depth < 4 {
+			for k, e := range phi.Edges {
+				expand(e, ir.EdgeConds(phi.Block().Preds[k], phi.Block()), depth+1)
+			}
+			return
+		}
+		out = append(out, valueWay{v, conds})
+	}
+	expand(ir.ReturnResult(r, i), ir.CondsAt(r.Block()), 0)
+	return out
+}
+
 // ruleResponseMarshal (C19, C18, C13): Response.MarshalJSON — what the HTTP
 // bridge writes for each reply — returns, on every path, the pair produced by
 // the package's message encoder (or json.Marshal): nothing is formatted by
@@ -541,6 +564,39 @@ func ruleResponseMarshal(c *chk.Ctx) {
 		if !ok && bad == "" {
 			bad = c.P.Pos(r.Pos())
 		}
+	}
+	// and what it encodes is the response as it settled: the error member of the message it
+	// builds is the response's own error object (never a rebuilt one, which would have to copy
+	// code, message and data), the result member the response's own result
+	wrong := ""
+	nMember := 0
+	c.P.ExtInstrs(f, func(ins ssa.Instruction) {
+		st, ok := ins.(*ssa.Store)
+		if !ok {
+			return
+		}
+		var want *types.Var
+		switch {
+		case chk.IsField(st.Addr, c.M.JE):
+			want = c.M.RErr
+		case chk.IsField(st.Addr, c.M.JR):
+			want = c.M.RResult
+		default:
+			return
+		}
+		nMember++
+		for _, w := range storedWays(c, st, f) {
+			v := ir.NormCell(w.val)
+			if ir.IsNilConst(v) {
+				continue
+			}
+			if !chk.LoadsField(v, want) && wrong == "" {
+				wrong = c.P.Pos(st.Pos())
+			}
+		}
+	})
+	if f != nil && c.M.RErr != nil && c.M.RResult != nil {
+		c.Check(wrong == "" && nMember >= 2, "PROV.encoder", f, "Response encodes its own error and result", f.Pos(), "the message built for encoding takes its error and result members from the response's own fields, unchanged", fmt.Sprintf("Response.MarshalJSON puts something other than the response's own error / result into the message it encodes (at %s; %d member stores found): an error rebuilt on the way loses its data member (or code), so a reply relayed by the HTTP bridge is no longer the reply the server gave", wrong, nMember))
 	}
 	c.Check(bad == "" && n > 0, "PROV.encoder", f, "Response encodes through the message encoder", f.Pos(), "every return of Response.MarshalJSON is the message encoder's (or json.Marshal's) pair", "Response.MarshalJSON assembles its output by hand (return at "+bad+"): a string formatted with Go's own quoting is not JSON for every message (control characters are written as \\x.. escapes), so the HTTP bridge would answer 500 and the remote client shut down")
 }
@@ -614,6 +670,18 @@ func ruleNormaliserExact(c *chk.Ctx) {
 		}
 		n++
 		isNullCall := func(cd ir.Cond) (bool, bool) {
+			// (the test written out in place: string(id) == "null")
+			if x, y, op, isRel := ir.Rel(cd); isRel && (op == token.EQL || op == token.NEQ) {
+				for _, pr := range [][2]ssa.Value{{x, y}, {y, x}} {
+					if k, isK := constString(pr[1]); isK && k == "null" {
+						if cv, isCv := pr[0].(*ssa.Convert); isCv {
+							if _, isP := ir.NormCell(cv.X).(*ssa.Parameter); isP {
+								return true, op == token.EQL // (Rel gives the relation that holds on this outcome)
+							}
+						}
+					}
+				}
+			}
 			call, ok := cd.V.(*ssa.Call)
 			if !ok {
 				return false, false
@@ -691,6 +759,26 @@ func ruleTaggedEmbeddedKeepsPosition(c *chk.Ctx) {
 		if len(lookups) == 0 {
 			continue
 		}
+		// a pointer parameter is looked through once: the function that lists a struct's field
+		// names does not unwrap pointer types in a loop (encoding/json takes an array for a **T
+		// no more than the positional mapping may)
+		loopElem := ""
+		ir.Instrs(f, func(ins ssa.Instruction) {
+			if call, ok := ins.(*ssa.Call); ok && call.Call.IsInvoke() && call.Call.Method.Name() == "Elem" && strings.HasSuffix(call.Call.Value.Type().String(), "reflect.Type") && ir.InCycle(call.Block()) {
+				// (inside the loop over the fields an embedded pointer may be looked through; the
+				// parameter type itself is unwrapped before any field is read)
+				beforeFields := true
+				ir.Instrs(f, func(i2 ssa.Instruction) {
+					if c2, ok := i2.(*ssa.Call); ok && c2.Call.IsInvoke() && c2.Call.Method.Name() == "NumField" && ir.InstrDominates(c2, call) {
+						beforeFields = false
+					}
+				})
+				if beforeFields {
+					loopElem = c.P.Pos(call.Pos())
+				}
+			}
+		})
+		c.Check(loopElem == "", "TABLE.tag", f, "a pointer parameter is looked through once", f.Pos(), "the parameter type is unwrapped by at most one Elem() before its fields are listed", "the field-name function unwraps pointer types in a loop (at "+loopElem+"): a **T parameter would get positional names, so an array is mapped onto it although encoding/json rejects an array for that type")
 		// the lookup of a field's tag does not depend on the field's Anonymous flag (the flag may be
 		// read first, as a default that a tag overrides; it may not decide whether the tag is looked at)
 		isAnon := func(v ssa.Value) bool {
